@@ -199,6 +199,23 @@ def classify_c01(rule_id, before_atoms, after_atoms):
         return None
     if [x.lower() for x in a] == [x.lower() for x in b]:
         return ("literal_recased", first_difference(a, b))
-    if allow:
-        return ("edit_outside_documented_class", first_difference(a, b))
-    return ("code_atoms_changed", first_difference(a, b))
+    return (failure_mode(a, b) + ("_by_allow_listed_rule" if allow else ""), first_difference(a, b))
+
+
+def failure_mode(a, b):
+    """coarse, stable description of how the code-atom sequence was damaged"""
+    import collections
+
+    ca, cb = collections.Counter(a), collections.Counter(b)
+    if ca == cb:
+        return "atoms_reordered"
+    i = 0
+    while i < len(a) and i < len(b) and a[i] == b[i]:
+        i += 1
+    if i + 1 < len(a) and i < len(b) and a[i] + a[i + 1] == b[i]:
+        return "atoms_fused"
+    if not (cb - ca):
+        return "atoms_lost"
+    if not (ca - cb):
+        return "atoms_invented"
+    return "atoms_replaced"
